@@ -20,11 +20,12 @@ import traceback
 from vf import core
 
 
-def axis_stride(tier):
+def axis_stride(tier, axis=None):
     try:
-        return max(1, int(os.environ.get('VERIF_AXIS_STRIDE', '') or (4 if tier == 'quick' else 2)))
+        base = max(1, int(os.environ.get('VERIF_AXIS_STRIDE', '') or (4 if tier == 'quick' else 2)))
     except ValueError:
-        return 4
+        base = 4
+    return base * core.AXIS_STRIDE_FACTOR.get(axis or core.AXIS, 1)
 
 
 def worker_sequence(mod, prop, seq):
@@ -77,8 +78,7 @@ def suffixed(acc, axis):
     return out
 
 
-AXIS_TEXT = {'opt': 'the interpreter runs with -O (assert statements removed)',
-             'debuglog': "the library's loggers are enabled at DEBUG level"}
+AXIS_TEXT = core.AXIS_TEXT
 
 
 def axis_child(prop, tier, seed, axis, case=None):
@@ -94,7 +94,7 @@ def axis_child(prop, tier, seed, axis, case=None):
             with os.fdopen(fd, 'w') as f:
                 json.dump(case, f)
             cmd += ['--axis-case', casefile]
-        env = dict(os.environ, VERIF_AXIS=axis, VERIF_SEED=str(seed))
+        env = dict(os.environ, VERIF_AXIS=axis, VERIF_SEED=str(seed), **core.AXIS_ENV.get(axis, {}))
         r = subprocess.run(cmd, env=env, stdout=subprocess.PIPE, stderr=subprocess.STDOUT, text=True)
         if r.returncode != 0 or not os.path.getsize(out):
             raise core.Broken('the %s-axis child process failed (exit %s):\n%s' % (axis, r.returncode,
@@ -152,7 +152,7 @@ def main(argv=None):
             # child of a run on an environment axis: a slice of the tasks (or one case), result pickled for the parent
             try:
                 if args.axis_case:
-                    acc = replay_in_process(mod, prop, json.load(open(args.axis_case)))
+                    acc = core.call_on_axis(lambda c: replay_in_process(mod, prop, c), json.load(open(args.axis_case)))
                     if acc is None:
                         acc = core.Acc()
                 else:
@@ -176,7 +176,7 @@ def main(argv=None):
                 cmd = [sys.executable] + (['-O'] if axis == 'opt' else []) + \
                       ['-m', 'vf.run', prop, '--tier', args.tier, '--axis', axis, '--replay', args.replay]
                 sys.stdout.flush()
-                os.execve(sys.executable, cmd, dict(os.environ, VERIF_AXIS=axis))
+                os.execve(sys.executable, cmd, dict(os.environ, VERIF_AXIS=axis, **core.AXIS_ENV.get(axis, {})))
             if isinstance(case, dict) and case.get('axis'):
                 inner = case['case']
                 if case.get('worker_sequence'):
@@ -187,7 +187,7 @@ def main(argv=None):
             if case is None or (isinstance(case, dict) and case.get('whole_axis_run')):
                 print('this replay file records a whole-check time-out; re-run: %s' % rec.get('replay_cmd'))
                 return 1
-            acc = replay_in_process(mod, prop, case)
+            acc = core.call_on_axis(lambda c: replay_in_process(mod, prop, c), case)
             if acc is not None and acc.violations:
                 for sig, (n, det) in sorted(acc.violations.items()):
                     print('VIOLATION property=%s replay=%s' % (prop, args.replay))
@@ -205,8 +205,8 @@ def main(argv=None):
         # environment axes: a slice of the same tasks in a child interpreter per axis
         axes = {}
         if not os.environ.get('VERIF_NO_AXES'):
-            stride = axis_stride(args.tier)
-            for axis in core.AXES:
+            for axis in core.AXES + tuple(getattr(mod, 'EXTRA_AXES', ())):
+                stride = axis_stride(args.tier, axis)
                 ta = time.time()
                 child = axis_child(prop, args.tier, seed, axis)
                 axes[axis] = {'what': AXIS_TEXT[axis], 'evaluations': child.evaluations,
